@@ -107,7 +107,9 @@ def S_mark(holder: Dict[str, Any], name: str, what: str) -> None:
     holder.setdefault("_marks", []).append((name, what))
 
 
-def run_case(ctx, backend: str, init: str, kinds: List[str], chooser_factory) -> Dict[str, Any]:
+def run_case(ctx, backend: str, init: str, kinds: List[str], chooser_factory, resend_412: bool = False) -> Dict[str, Any]:
+    """resend_412 (object store only): the FIRST create-if-absent PUT of the pointer is applied, its response is lost, the
+    client library re-sends it and the caller is told 412 PreconditionFailed -- a conflict with its own write."""
     import datashard
     from datashard.data_structures import Schema
     from datashard.storage_backend import LocalStorageBackend
@@ -117,6 +119,17 @@ def run_case(ctx, backend: str, init: str, kinds: List[str], chooser_factory) ->
     shutil.rmtree(root, ignore_errors=True)
     store = mems3.MemS3(sc.now_ms) if backend == "s3cas" else None
     lock_mode = "grant_all" if backend == "s3cas" else "real"
+
+    if store is not None and resend_412:
+        from botocore.exceptions import ClientError
+        fired = {"n": 0}
+
+        def after_hook(op: str, key: str) -> None:
+            if op == "put_object" and key.endswith(P.HINT) and sc.me() is not None and not fired["n"]:
+                fired["n"] = 1
+                raise ClientError({"Error": {"Code": "PreconditionFailed", "Message": "re-sent request lost to its own first attempt"},
+                                   "ResponseMetadata": {"HTTPStatusCode": 412}}, "PutObject")
+        store.after_hook = after_hook
 
     def factory(tp: str) -> Any:
         if store is not None:
@@ -440,6 +453,16 @@ def run(ctx) -> None:
                 continue
             exprs.append(model_expr(out, evs))
             metas.append((backend, init, kinds, dev, out, evs))
+    # object store: the pointer create is applied, its response lost, the re-sent request answered 412 (oracle only)
+    for kinds in (["create"], ["create", "open"], ["create", "create"], ["create_append", "create"]):
+        out = run_case(ctx, "s3cas", "absent", kinds, c01.dev_chooser({}), resend_412=True)
+        total += 1
+        outside[0] += 1
+        ctx.count(1, ("s3cas", "absent-resend412", tuple(kinds)))
+        why = oracle(out)
+        if why:
+            ctx.violation(f"create-race:s3cas:absent-resend412:{'+'.join(kinds)}", why,
+                          {"backend": "s3cas", "init": "absent", "kinds": kinds, "deviations": [], "schedule": out["schedule"], "resend_412": True})
     ctx.stats["schedules"] = total
     try:
         vals = coqbuild.coq_eval(REQ, exprs, chunk=80)
@@ -476,7 +499,9 @@ def replay(ctx, payload) -> int:
         print("replay: no concrete case")
         return 2
     dev = c.get("deviations", [])
-    if dev and dev[0][0] == "random":
+    if c.get("resend_412"):
+        out = run_case(ctx, c["backend"], c["init"], c["kinds"], c01.dev_chooser({}), resend_412=True)
+    elif dev and dev[0][0] == "random":
         out = run_case(ctx, c["backend"], c["init"], c["kinds"], lambda sc: S.random_chooser(_r.Random(dev[0][1]), 0.4))
     else:
         out = run_case(ctx, c["backend"], c["init"], c["kinds"], c01.dev_chooser({int(i): a for i, a in dev}))
